@@ -901,9 +901,15 @@ pub mod internal {
                     UniquePortId::Writer(ref _id) => {}
                 };
 
-                if let Err(e) = remove_port_tag::<S>(node_id, port_id.value(), config) {
-                    debug!(from origin,  "Failed to remove the port tag for port {:?}. [{e:?}]", port_id);
-                    return PortCleanupAction::SkipPort;
+                match remove_port_tag::<S>(node_id, port_id.value(), config) {
+                    Ok(())
+                    | Err(
+                        crate::service::stale_resource_cleanup::PortRemoveTagError::AlreadyRemoved,
+                    ) => (),
+                    Err(e) => {
+                        debug!(from origin,  "Failed to remove the port tag for port {:?}. [{e:?}]", port_id);
+                        return PortCleanupAction::SkipPort;
+                    }
                 }
                 trace!(from origin, "Remove port {:?} from service.", port_id);
                 PortCleanupAction::RemovePort
